@@ -218,3 +218,16 @@ func vCounterGraphs() (int, []string) {
 
 //@ bounded vCounterGraphs RenderValue over every fallback/extends graph on three author counter styles (4096 graphs incl. cycles) x 3 start styles x 4 values: returns a non-empty representation
 //@   props C19 C01
+
+// css-counter-styles-3 §3.1.7 `system: extends`: "any unspecified descriptors must be taken from the extended
+// counter style": a descriptor the extending style specifies — `range: auto` included — is kept.
+//@ func (*CounterStyleDescriptors).merge
+//@   props C19
+//@   nopanic
+//@   requires desc != nil
+//@   modifies *desc
+//@   ensures[range-kept-when-specified] !old(desc.Range.IsNone()) ==> desc.Range == old(desc.Range)
+//@   ensures[range-taken-when-unspecified] old(desc.Range.IsNone()) ==> desc.Range == src.Range
+//@   ensures[fallback] desc.Fallback == ite(old(desc.Fallback) == "", src.Fallback, old(desc.Fallback))
+//@   ensures[pad] desc.Pad == ite(old(desc.Pad.IsNone()), src.Pad, old(desc.Pad))
+//@   ensures[prefix-suffix] desc.Prefix == ite(old(desc.Prefix.IsNone()), src.Prefix, old(desc.Prefix)) && desc.Suffix == ite(old(desc.Suffix.IsNone()), src.Suffix, old(desc.Suffix))
